@@ -9,7 +9,14 @@ Extracted (fail closed on any other shape):
     delegate to astropy `writeto(..., overwrite=False)` (= raises) -> Raise | Skip | Overwrite
   * save_to_files: the `match extension` dispatch (writer or NotImplementedError per format), its
     `overwrite` default and whether run_pipeline passes `overwrite`
-  * Outputs.save_to_file: the `save_methods` table; the extension of each to_* template
+  * Outputs.save_to_file: the `save_methods` table; the extension of each to_* template; whether it
+    uses the first item of each dict only or loops over `dct.items()`; whether the per-bucket result
+    replaces (`all_filenames[k] = v`) or merges (`all_filenames.setdefault(k, {}).update(v)`)
+  * Outputs.build_filenames: reads no attribute of `self` other than `save_data_to_file` (so nothing
+    remembered from an earlier call can enter), iterates it directly, two f-string templates
+    detector_{bucket}.{ext} / detector_{bucket}_{suffix}.{ext}
+  * Observation._run_single_pipeline: the `outputs=` argument of its run_pipeline call (self.outputs | None)
+  * run_pipelines_with_dask: the "outputs" entry of the kwargs given to apply_ufunc (outputs | deepcopy(outputs))
 """
 from __future__ import annotations
 
@@ -258,12 +265,134 @@ def old_dispatch(repo: Path):
     return table
 
 
+# ------------------------------------------------------------------------------------------ state / flow shape
+
+
+def _self_attrs(fn: ast.FunctionDef) -> set[str]:
+    return {n.attr for n in ast.walk(fn) if isinstance(n, ast.Attribute) and _is_name(n.value, "self")}
+
+
+def check_build_filenames(repo: Path) -> None:
+    """build_filenames must be a pure function of self.save_data_to_file and its argument."""
+    tree = parse(repo, "pyxel/outputs/outputs.py")
+    fn = find_func(tree, "build_filenames", cls="Outputs")
+    attrs = _self_attrs(fn)
+    if attrs - {"save_data_to_file"}:
+        fail(fn, f"build_filenames reads/writes other attributes of self: {sorted(attrs - {'save_data_to_file'})}")
+    for n in ast.walk(fn):
+        if isinstance(n, (ast.Global, ast.Nonlocal)):
+            fail(n, "build_filenames must not use global/nonlocal state")
+    loops = [n for n in body_no_doc(fn) if isinstance(n, ast.For)]
+    if len(loops) != 1 or not (isinstance(loops[0].iter, ast.Attribute) and _is_name(loops[0].iter.value, "self")
+                               and loops[0].iter.attr == "save_data_to_file"):
+        fail(fn, "build_filenames must iterate `self.save_data_to_file` in one top-level for loop")
+    templates = []
+    for n in ast.walk(fn):
+        if isinstance(n, ast.JoinedStr):
+            templates.append(tuple(v.value for v in n.values if isinstance(v, ast.Constant)))
+    if sorted(templates) != [("detector_", "."), ("detector_", "_", ".")]:
+        fail(fn, f"build_filenames: unexpected file name templates {templates}")
+
+
+def seq_new_stage(repo: Path) -> bool:
+    tree = parse(repo, "pyxel/observation/observation.py")
+    fn = find_func(tree, "_run_single_pipeline", cls="Observation")
+    calls = [n for n in ast.walk(fn) if isinstance(n, ast.Call) and _is_name(n.func, "run_pipeline")]
+    if len(calls) != 1 or calls[0].args:
+        fail(fn, "_run_single_pipeline must call run_pipeline once, with keywords")
+    kw = {k.arg: k.value for k in calls[0].keywords}
+    if "output_filename_suffix" in kw:
+        fail(calls[0], "_run_single_pipeline: run_pipeline(output_filename_suffix=...) is not a known shape")
+    v = kw.get("outputs")
+    saves = [n for n in ast.walk(fn) if isinstance(n, ast.Call) and isinstance(n.func, ast.Attribute)
+             and n.func.attr == "save_to_file"]
+    if len(saves) != 1:
+        fail(fn, "_run_single_pipeline must call outputs.save_to_file once")
+    skw = {k.arg: k.value for k in saves[0].keywords}
+    if "run_number" not in skw or ast.unparse(skw["run_number"]) != "param_item.run_index":
+        fail(saves[0], "save_to_file must be called with run_number=param_item.run_index")
+    if isinstance(v, ast.Attribute) and _is_name(v.value, "self") and v.attr == "outputs":
+        return True
+    if isinstance(v, ast.Constant) and v.value is None:
+        return False
+    fail(calls[0], "run_pipeline(outputs=...) must be self.outputs or None")
+
+
+def old_items_and_merge(repo: Path) -> tuple[bool, bool]:
+    tree = parse(repo, "pyxel/outputs/outputs.py")
+    fn = find_func(tree, "save_to_file", cls="Outputs")
+    outer = [n for n in fn.body if isinstance(n, ast.For)]
+    if len(outer) != 1 or not (isinstance(outer[0].iter, ast.Attribute) and _is_name(outer[0].iter.value, "self")
+                               and outer[0].iter.attr == "save_data_to_file" and _is_name(outer[0].target, "dct")):
+        fail(fn, "Outputs.save_to_file must loop `for dct in self.save_data_to_file`")
+    first = [n for n in ast.walk(outer[0]) if isinstance(n, ast.Assign) and isinstance(n.targets[0], ast.Tuple)
+             and any(isinstance(e, ast.Starred) for e in n.targets[0].elts)
+             and ast.unparse(n.value) == "dct.items()"]
+    inner = [n for n in outer[0].body if isinstance(n, ast.For) and ast.unparse(n.iter) == "dct.items()"]
+    if len(first) == 1 and not inner:
+        if ast.unparse(first[0].targets[0]) != "(first_item, *_)":
+            fail(first[0], "unexpected unpacking of dct.items()")
+        all_items = False
+        scope = outer[0]
+    elif len(inner) == 1 and not first:
+        if ast.unparse(inner[0].target) != "(valid_name, format_list)":
+            fail(inner[0], "inner loop must be `for valid_name, format_list in dct.items()`")
+        all_items = True
+        scope = inner[0]
+    else:
+        fail(outer[0], "Outputs.save_to_file: neither the first-item shape nor a loop over dct.items()")
+    stores = []
+    for n in ast.walk(scope):
+        if isinstance(n, ast.Assign) and isinstance(n.targets[0], ast.Subscript) \
+                and _is_name(n.targets[0].value, "all_filenames"):
+            stores.append(("replace", ast.unparse(n)))
+        if isinstance(n, ast.Call) and isinstance(n.func, ast.Attribute) and n.func.attr in ("update", "setdefault") \
+                and "all_filenames" in ast.unparse(n.func.value):
+            if n.func.attr == "update":
+                stores.append(("merge", ast.unparse(n)))
+    if len(stores) != 1:
+        fail(scope, f"Outputs.save_to_file: expected one store into all_filenames, found {stores}")
+    kind, text = stores[0]
+    if kind == "replace":
+        if text != "all_filenames[valid_name] = partial_filenames":
+            fail(scope, f"unknown store {text}")
+        return all_items, False
+    if text != "all_filenames.setdefault(valid_name, {}).update(partial_filenames)":
+        fail(scope, f"unknown store {text}")
+    return all_items, True
+
+
+def dask_snapshot(repo: Path) -> bool:
+    tree = parse(repo, "pyxel/observation/observation_dask.py")
+    fn = find_func(tree, "run_pipelines_with_dask")
+    calls = [n for n in ast.walk(fn) if isinstance(n, ast.Call) and ast.unparse(n.func) == "xr.apply_ufunc"]
+    if len(calls) != 1:
+        fail(fn, "run_pipelines_with_dask must call xr.apply_ufunc once")
+    kw = {k.arg: k.value for k in calls[0].keywords}
+    d = kw.get("kwargs")
+    if not isinstance(d, ast.Dict):
+        fail(calls[0], "apply_ufunc(kwargs=...) must be a dict display")
+    ent = {k.value: v for k, v in zip(d.keys, d.values) if isinstance(k, ast.Constant)}
+    if "outputs" not in ent:
+        fail(d, 'apply_ufunc kwargs must have an "outputs" entry')
+    v = ent["outputs"]
+    if _is_name(v, "outputs"):
+        return False
+    if ast.unparse(v) in ("deepcopy(outputs)", "copy.deepcopy(outputs)"):
+        return True
+    fail(v, 'the "outputs" entry must be `outputs` or `deepcopy(outputs)`')
+
+
 def coq_str(s: str) -> str:
     assert all(32 <= ord(c) < 127 and c != '"' for c in s), s
     return '"' + s + '"'
 
 
-def render(excl: bool, writers, new_tab, old_tab, exts) -> str:
+def cb(b: bool) -> str:
+    return 'true' if b else 'false'
+
+
+def render(excl: bool, writers, new_tab, old_tab, exts, flags=(True, False, False, False)) -> str:
     ws = "; ".join(f"({coq_str(w)}, {b})" for w, b in writers)
     nt = "; ".join(f"({FMT[k]}, {'None' if w is None else 'Some ' + coq_str(w)})" for k, w in new_tab)
     ot = "; ".join(f"({FMT[k]}, {coq_str(w)})" for k, w in old_tab)
@@ -276,7 +405,9 @@ def render(excl: bool, writers, new_tab, old_tab, exts) -> str:
             f"  t_writers := [{ws}];\n"
             f"  t_new := [{nt}];\n"
             f"  t_old := [{ot}];\n"
-            f"  t_old_ext := [{et}] |}}.\n")
+            f"  t_old_ext := [{et}];\n"
+            f"  t_seq_new_stage := {cb(flags[0])}; t_old_all_items := {cb(flags[1])};\n"
+            f"  t_old_merge := {cb(flags[2])}; t_dask_snapshot := {cb(flags[3])} |}}.\n")
 
 
 def translate(repo: Path) -> str:
@@ -296,7 +427,10 @@ def translate(repo: Path) -> str:
         writers.append((w, b))
     new_tab = new_dispatch(find_func(utils, "save_to_files"))
     old_tab = old_dispatch(repo)
-    return render(excl, writers, new_tab, old_tab, exts)
+    check_build_filenames(repo)
+    all_items, merge = old_items_and_merge(repo)
+    flags = (seq_new_stage(repo), all_items, merge, dask_snapshot(repo))
+    return render(excl, writers, new_tab, old_tab, exts, flags)
 
 
 FALLBACK = render(
